@@ -291,7 +291,8 @@ class Type4Tag(nfc.tag.Tag):
             # commands and responses use short length fields only
             self._max_le = min(mle, 256)
             self._max_lc = min(mlc, 255)
-            self._capacity = mfs - tag + 2
+            # read and update binary address the file with a 16-bit offset
+            self._capacity = min(mfs, 0x10000) - tag + 2
             self._readable = bool(rf == 0)
             self._writeable = bool(wf == 0)
             self._nlen_size = tag - 2
@@ -368,7 +369,7 @@ class Type4Tag(nfc.tag.Tag):
 
         def _dump_ndef_data(self):
             lines = []
-            for offset in itertools.count(0, 16):  # pragma: no branch
+            for offset in range(0, 0x10000, 16):  # pragma: no branch
                 try:
                     line = self._read_binary(offset, 16)
                     if len(line) > 0:
